@@ -160,6 +160,8 @@ def known_witnesses(ctx):
               'RegE2', [('d', 4), ('e', 2)], [('q', 4)], lambda t, i, o: P.Reg(t, 'x', i['d'], o['q'], enable=i['e']), [([('d', 9), ('e', 2)], 1)]))
     W.append(('equalconstant-oversized', 'EqualConstant with a constant >= 2**w: the inlined comparison uses the untruncated constant, the simulated Minterm compares modulo 2**w',
               'EqK', [('a', 3)], [('r', 1)], lambda t, i, o: P.EqualConstant(t, 'x', i['a'], 9, o['r']), [([('a', 1)], 0)]))
+    W.append(('xor2-mixed-widths', 'Xor2 whose result is wider than operand a: the simulated NAND network leaves ones in the upper result bits (C08-xor2-wide-result), the inlined `a ^ b` zero-extends',
+              'Xor2w', [('a', 1), ('b', 2)], [('r', 2)], lambda t, i, o: P.Xor2(t, 'x', i['a'], i['b'], o['r']), [([('a', 0), ('b', 0)], 0)]))
     def two_adders(t, i, o):
         P.Add(t, 'dbl', i['x'], i['x'], o['r1'])          # both operands on the same wire: emitted first, its body is `r = b + b + ci`
         P.Add(t, 'sum', i['a'], i['b'], o['r2'])          # same module name Add4: bound to the first body
